@@ -137,6 +137,9 @@ fn compare_integer_float(i: i64, f: f64) -> std::cmp::Ordering {
     } else {
         let truncated = f.trunc();
         match i.cmp(&(truncated as i64)) {
+            // Integer(0) ranks with +0.0, above -0.0, so that the order stays total together with
+            // total_cmp on Floats (-0.0 < +0.0): sort_by panics on an inconsistent comparator
+            Ordering::Equal if f == 0.0 && f.is_sign_negative() => Ordering::Greater,
             Ordering::Equal => 0.0_f64.total_cmp(&(f - truncated)),
             ordering => ordering,
         }
